@@ -409,7 +409,7 @@ class PyExec:
         try:
             for l in lines:
                 self.out = []
-                signal.setitimer(signal.ITIMER_REAL, 10.0)
+                signal.setitimer(signal.ITIMER_REAL, 60.0)
                 try:
                     self.step(l)
                 except ScriptTimeout:
